@@ -367,4 +367,18 @@ def gen(seed, wild_ok=True):
     steps = rnd.choice([0, 0, 1, 2, 4, 6])
     wild = wild_ok and rnd.random() < 0.3
     log, tame = mutate(h, rnd, steps, wild)
+    # link deletions, drawn from a stream of their own (the histories above stay what they were): prefer a
+    # link that is not the last one on a port carrying several, at either end
+    rnd2 = random.Random(seed * 7919 + 13)
+    if rnd2.random() < 0.35:
+        for _ in range(rnd2.choice([1, 1, 2])):
+            links = list(h.links())
+            if not links:
+                break
+            lp = lambda p: list(h.linked_ports(p))  # noqa: E731
+            multi = [(s, t) for (s, t) in links
+                     if (len(lp(t)) > 1 and lp(t)[-1] != s) or (len(lp(s)) > 1 and lp(s)[-1] != t)]
+            s_, t_ = rnd2.choice(multi) if multi and rnd2.random() < 0.7 else rnd2.choice(links)
+            h.delete_link(s_, t_)
+            log.append(("delete_link", (s_.node.idx, s_.offset), (t_.node.idx, t_.offset)))
     return h, {"program": name, "history": log, "tame": tame}
